@@ -26,7 +26,8 @@ def main(argv):
     budget = os.environ.get("VERIF_BUDGET_S")
     runs = os.environ.get("VERIF_RUNS")
     return driver.run_check(pid, tier, seed, budget_override=float(budget) if budget else None,
-                            runs_override=int(runs) if runs else None)
+                            runs_override=int(runs) if runs else None,
+                            write_evidence=not os.environ.get("GSIM_NO_EVIDENCE"))
 
 
 if __name__ == "__main__":
